@@ -31,11 +31,18 @@ let ids_of_csv (s : string) : int list =
 
 let csv_of_ids (l : int list) : string = if l = [] then "-" else String.concat "," (List.map string_of_int l)
 
-(* the ids of the lines of an observed payload; None = some line is malformed / not a reported sample *)
-let lines_of_payload (withid : bool) (payload : string) : int list option =
+let field_after (prefix : string) (tok : string) : string option =
+  let n = String.length prefix in
+  if String.length tok >= n && String.sub tok 0 n = prefix then Some (String.sub tok n (String.length tok - n)) else None
+
+(* the ids of the lines of an observed payload; None = some line is malformed / not a reported sample.
+   [cut]: the part of the destination's bytes that belongs to this run (Model/Destination.v this_run:
+   everything for a file, what follows the earlier content for a stream); None = the earlier content
+   of the stream is no longer there. *)
+let lines_of_payload ?(cut : (n list -> n list option) = (fun b -> Some b)) (withid : bool) (payload : string) : int list option =
   if String.length payload >= 4 && String.sub payload 0 4 = "hex:" then begin
     let data = bytes_of_hex (String.sub payload 4 (String.length payload - 4)) in
-    match parse_file withid data with
+    match (match cut data with Some mine -> parse_file withid mine | None -> None) with
     | None -> None
     | Some ss ->
         let ok = ref true in
@@ -71,7 +78,16 @@ let rec run_lazy enc kind q (st : int st) (accepted : int -> bool) (handled : in
             | None -> None
             | Some st2 -> run_lazy enc kind q st2 accepted (if do_handle then handled + 1 else handled) rest))
 
-let aggr_case fmt q g per mode delay obs : string * string * bool =
+let aggr_case ?(dest = "file") ?(old = "x-") fmt q g per mode delay obs : string * string * bool =
+  (* the destination: a file the aggregator creates, or a stream (stdout / stderr) holding [oldb] *)
+  let d = (match fmt, dest with
+           | ("phout" | "phoutid"), "stdout" -> phout_dest []
+           | ("phout" | "phoutid"), _ -> phout_dest (bytes_of_string "out")
+           | _, "stdout" -> sink_dest SinkStdout
+           | _, "stderr" -> sink_dest SinkStderr
+           | _, _ -> sink_dest (SinkFile (bytes_of_string "out"))) in
+  let oldb = if dest <> "file" && String.length old >= 1 && old.[0] = 'x'
+             then bytes_of_hex (String.sub old 1 (String.length old - 1)) else [] in
   let kind = if fmt = "phout" || fmt = "phoutid" then Blocking else Dropping in
   let withid = (fmt <> "phout") in
   let enc (id : int) : n list option =
@@ -79,12 +95,17 @@ let aggr_case fmt q g per mode delay obs : string * string * bool =
     else (match render_phout withid (sample_of_id id) with Ok l -> Some (l @ [n_of_int 10]) | Panic -> None) in
   let reports = List.init g (fun i -> List.init per (fun j -> n_of_int ((i lsl id_shift) lor j))) in
   let total = g * per in
-  let (oerr, oorder, opayload) =
+  let (oerr, oorder, opayload, ohead) =
     (match split_blank obs with
-     | [e; o; p] -> (e, o, p)
-     | e :: _ -> (e, "-", "")
-     | [] -> ("", "-", "")) in
-  let olines = lines_of_payload withid opayload in
+     | [e; o; p] -> (e, o, p, None)
+     | [e; o; p; h] -> (e, o, p, field_after "head:" h)
+     | e :: _ -> (e, "-", "", None)
+     | [] -> ("", "-", "", None)) in
+  (* json on a stream: the harness cut the bytes at |old|; the head must be the earlier content *)
+  let head_ok = (match ohead with
+                 | None -> fmt <> "json" || d = DFile
+                 | Some h -> this_run d oldb (bytes_of_hex h) = Some []) in
+  let olines = if head_ok then lines_of_payload ~cut:(this_run d oldb) withid opayload else None in
   (* specification on the observation *)
   let drops_err =
     if oerr = "nil" then Some (0, None)
@@ -94,6 +115,7 @@ let aggr_case fmt q g per mode delay obs : string * string * bool =
   let v =
     (match drops_err, olines with
      | None, _ -> "BAD:run-ended-with-" ^ oerr
+     | _, None when not head_ok -> "BAD:earlier-content-of-the-stream-damaged"
      | _, None -> "BAD:malformed-or-foreign-line"
      | Some (d, e), Some ls ->
          if complete_b kind owner reports (List.map n_of_int ls) (n_of_int d) e then "ok"
@@ -102,8 +124,9 @@ let aggr_case fmt q g per mode delay obs : string * string * bool =
   let render_pred (st : int st) (order : int list) : string =
     let err = (match run_error st with None -> "nil" | Some d -> "dropped:" ^ string_of_n d) in
     let payload = if fmt = "json" then "ids:" ^ String.concat "," (List.map string_of_int st.acc_log) ^ ";bad=0"
-                  else "hex:" ^ hex_of_bytes st.sink in
-    err ^ " " ^ csv_of_ids order ^ " " ^ payload in
+                  else "hex:" ^ hex_of_bytes (opened d oldb @ st.sink) in
+    err ^ " " ^ csv_of_ids order ^ " " ^ payload
+    ^ (if fmt = "json" && d = DStream then " head:" ^ hex_of_bytes (opened d oldb) else "") in
   let finish (st : int st) : int st option =
     (match step enc kind (nat_of_int q) st Cancel with
      | None -> None
@@ -129,9 +152,6 @@ let aggr_case fmt q g per mode delay obs : string * string * bool =
   (pred, v, total >= 2)
 
 (* ---- engine cases ---- *)
-let field_after (prefix : string) (tok : string) : string option =
-  let n = String.length prefix in
-  if String.length tok >= n && String.sub tok 0 n = prefix then Some (String.sub tok n (String.length tok - n)) else None
 
 let engine_case fmt instances ammo ramp obs : string * string * bool =
   let kind = if fmt = "json" then Dropping else Blocking in
@@ -222,10 +242,13 @@ let predict (c : string) (obs : string) : string * string * bool =
   | ["aggr"; fmt; q; g; per; mode; delay; _; _] | ["aggr"; fmt; q; g; per; mode; delay; _; _; _]
   | ["aggr"; fmt; q; g; per; mode; delay; _; _; _; _] ->
       aggr_case fmt (int_of_string q) (int_of_string g) (int_of_string per) mode (int_of_string delay) obs
+  | ["aggr"; fmt; q; g; per; mode; delay; _; _; _; old; dest] ->
+      aggr_case ~dest ~old fmt (int_of_string q) (int_of_string g) (int_of_string per) mode (int_of_string delay) obs
   | ["engine"; fmt; instances; ammo; _; _] -> engine_case fmt (int_of_string instances) (int_of_string ammo) false obs
   | ["engine"; fmt; instances; ammo; _; _; _; _] -> engine_case fmt (int_of_string instances) (int_of_string ammo) true obs
   | "signal" :: _ -> signal_case "interrupted" [CSignal; CCancel; CRunReturns; CAggrClosed O; CPoolDone O; CExit ExInterrupted] ExInterrupted obs
   | "fail" :: _ -> signal_case "failed" [CRunFails; CCancel; CAggrClosed O; CPoolDone O; CExit ExFailed] ExFailed obs
+  | "end" :: _ -> signal_case "ok" [CInstancesDone O; CAggrClosed O; CPoolDone O; CRunOk; CExit ExOk] ExOk obs
   | _ -> ("unknown-case", "BAD:unknown-case", false)
 
 let () = run_cases predict
